@@ -339,8 +339,9 @@ def execute(plan, tier, seed):
             "wall_s": round(time.time() - t0, 2),
             "violations": len(violations),
         }
-        os.makedirs(os.path.join(VERIF, "evidence"), exist_ok=True)
-        with open(os.path.join(VERIF, "evidence", plan.prop + ".json"), "w") as f:
+        evdir = os.environ.get("VERIF_EVIDENCE_DIR") or os.path.join(VERIF, "evidence")
+        os.makedirs(evdir, exist_ok=True)
+        with open(os.path.join(evdir, plan.prop + ".json"), "w") as f:
             json.dump(ev, f, indent=1, ensure_ascii=False)
         print(
             "%s tier=%s obligations=%d confirmed=%d inconclusive=%d violations=%d twins=%d/%d paths=%d solver_checks=%d solver_s=%.1f wall=%.1fs"
